@@ -742,6 +742,21 @@ class KnownDirectivesChecker(ValidationVisitor):
             _ast.InputObjectTypeExtension: "INPUT_OBJECT",
         }[kind]
 
+    def enter_variable_definition(self, node):
+        # Directives of variable definitions are not visited as directive
+        # nodes by the AST visitor.
+        for directive in node.directives or []:
+            name = directive.name.value
+            schema_directive = self.schema.directives.get(name)
+            if schema_directive is None:
+                self.add_error('Unknown directive "%s".' % name, [directive])
+            elif "VARIABLE_DEFINITION" not in schema_directive.locations:
+                self.add_error(
+                    'Directive "%s" may not be used on VARIABLE_DEFINITION.'
+                    % name,
+                    [directive],
+                )
+
     def enter_directive(self, node):
         name = node.name.value
         schema_directive = self.schema.directives.get(name)
